@@ -37,6 +37,10 @@ structure FrameS where
   sum : Nat
   /-- 0 active, 1 superseded, 2 deleted -/
   status : Nat
+  /-- number of chunk frames the document's chunk manifest lists (0: not a chunked document) -/
+  need : Nat := 0
+  /-- parent document of a chunk frame -/
+  parent : Option Nat := none
 deriving Repr, DecidableEq
 
 structure TocS where
@@ -46,8 +50,18 @@ structure TocS where
   segs : List (Nat × Nat × Nat)
 deriving Repr, DecidableEq
 
+/-- a frame-insert record: payload identity and length, superseded frame, chunks its manifest lists,
+    log sequence of the parent document (chunk records) -/
+structure InsS where
+  sum : Nat
+  len : Nat
+  supersedes : Option Nat := none
+  need : Nat := 0
+  parentSeq : Option Nat := none
+deriving Repr, DecidableEq
+
 inductive WOp where
-  | insert (sum len : Nat) (supersedes : Option Nat)
+  | insert (i : InsS)
   | tomb (target : Nat)
   | lex
 deriving Repr, DecidableEq
@@ -131,6 +145,20 @@ def footerCandidates (env : Env) (img : List Cell) : List Nat :=
 def scanFooter (env : Env) (g : Geo) (img : List Cell) : Option (Nat × TocS) :=
   (footerCandidates env img).findSome? (footerAt env g img)
 
+/-- the hinted fall-back of `recover_toc`: no valid footer anywhere, but the bytes from the header's
+    pointer to the end of the file are exactly one complete TOC (its footer was never written).  The
+    code decodes `[hint, len - 56)`; observed on the real code: the cut-off TOC decodes as one of the
+    legacy layouts with the same frame table and without the trailing track manifests (empirical
+    part of the model — validated by the correspondence run only). -/
+def hintedToc (env : Env) (img : List Cell) (hint : Nat) : Option (Nat × TocS × Bool) :=
+  match img[hint]? with
+  | some (tid, 0) =>
+    match env tid with
+    | some (.toc t) =>
+      if hint + t.len = img.length ∧ intactAt img hint tid t.len then some (hint, { t with segs := [] }, true) else none
+    | _ => none
+  | _ => none
+
 /-- `ensure_non_overlapping_frames`: payload ranges inside the file, pairwise disjoint -/
 def framesOk (fileLen : Nat) (fs : List FrameS) : Bool :=
   let ps := fs.filter (fun f => f.len ≠ 0)
@@ -159,13 +187,22 @@ def scanWal (env : Env) (g : Geo) (region : List Cell) : Nat → Nat → List (N
 def setStatus (fs : List FrameS) (id st : Nat) : List FrameS :=
   fs.mapIdx (fun i f => if i = id then { f with status := st } else f)
 
-def replay (fs : List FrameS) (cursor : Nat) : List (Nat × WOp) → List FrameS
+/-- `sequence_to_frame` of `apply_records`: the frame a record of this batch became -/
+def seqFrame (m : List (Nat × Nat)) (sq : Nat) : Option Nat := (m.find? (·.1 == sq)).map (·.2)
+
+def replay (fs : List FrameS) (cursor : Nat) (m : List (Nat × Nat)) : List (Nat × WOp) → List FrameS
   | [] => fs
-  | (_, .insert sum len sup) :: rest =>
-    let fs1 := match sup with | some o => setStatus fs o 1 | none => fs
-    replay (fs1 ++ [{ off := cursor, len := len, sum := sum, status := 0 }]) (cursor + len) rest
-  | (_, .tomb t) :: rest => replay (setStatus fs t 2) cursor rest
-  | (_, .lex) :: rest => replay fs cursor rest
+  | (sq, .insert i) :: rest =>
+    let fs1 := match i.supersedes with | some o => setStatus fs o 1 | none => fs
+    let parent := match i.parentSeq with | some p => seqFrame m p | none => none
+    replay (fs1 ++ [{ off := cursor, len := i.len, sum := i.sum, status := 0, need := i.need, parent := parent }])
+      (cursor + i.len) ((sq, fs1.length) :: m) rest
+  | (_, .tomb t) :: rest => replay (setStatus fs t 2) cursor m rest
+  | (_, .lex) :: rest => replay fs cursor m rest
+
+/-- a chunked document reads back only when all the chunk frames its manifest lists exist -/
+def childrenOk (fs : List FrameS) (i : Nat) (f : FrameS) : Bool :=
+  f.need = 0 || (fs.filter (fun c => c.parent = some i)).length ≥ f.need
 
 /-- what a reopened memory shows: per frame its status and whether its payload is readable
     (`replayed` frames come out of checksummed log records: readable) -/
@@ -192,7 +229,7 @@ def recover (env : Env) (g : Geo) (img : List Cell) : Outcome :=
           | some (_, t) => some (h.footerOff, t, false)
           | none => match scanFooter env g img with
                     | some (o, t) => some (o, t, true)
-                    | none => none
+                    | none => hintedToc env img h.footerOff
         match found with
         | none => .fail .toc
         | some (footerOff, t, viaScan) =>
@@ -206,12 +243,13 @@ def recover (env : Env) (g : Geo) (img : List Cell) : Outcome :=
                                 (fun m f => max m (f.off + f.len))
                                 (t.segs.foldl (fun m s => max m (s.1 + s.2.1)) (max footerOff (g.hdrSize + h.walSize)))
               let committed := t.frames.length
-              let fs := replay t.frames dataEnd pending
+              let fs := replay t.frames dataEnd [] pending
               if !(t.segs.all (fun s => intactAt img s.1 s.2.2 s.2.1)) then .fail .segment
               else
                 .ok (fs.mapIdx (fun i f =>
                       { status := f.status, sum := f.sum,
-                        readable := f.status ≠ 0 || i ≥ committed || f.len = 0 || intactAt img f.off f.sum f.len }))
+                        readable := f.status ≠ 0 ||
+                          (childrenOk fs i f && (i ≥ committed || f.len = 0 || intactAt img f.off f.sum f.len)) }))
                     pending.length viaScan
     | _ => .fail .header
   | _ => .fail .header
